@@ -17,7 +17,8 @@ RULE = ('A Hypothesis example is a batch of input calls (alias or resolver-forma
         'has thousands of characters, with a sibling differing only at the end) made inside one operation, each '
         'returning its own token. The batch is recorded by a child interpreter started with one PYTHONHASHSEED into a '
         'file cassette and replayed by a child started with another (seeds 0, 1, 2, 12345, 4294967295; all ordered '
-        'pairs over a run). Relations: (1) equal => same key: the replayed call is a structurally equal reconstruction '
+        'pairs over a run); independently each child has either imported only what recording into a file cassette needs '
+        'or every module of the playback package (S3 / asynchronous cassettes, studio, file interception). Relations: (1) equal => same key: the replayed call is a structurally equal reconstruction '
         '(dict items and set members in reversed order, arguments excluded from capture replaced by other values) and '
         'must receive the token recorded for the original; the key strings listed by get_all_keys() in two processes '
         'must be equal sets, also when the second process makes the calls in reversed order (no dependence on call history; '
@@ -32,10 +33,10 @@ ASSUMPTIONS = ['pairs of values that are == but of different type (1 / 1.0 / Tru
 _children = {}
 
 
-def child(seed):
-    if seed not in _children:
-        _children[seed] = HS.Child(seed)
-    return _children[seed]
+def child(seed, preimport=False):
+    if (seed, preimport) not in _children:
+        _children[(seed, preimport)] = HS.Child(seed, preimport)
+    return _children[(seed, preimport)]
 
 
 def close_children():
@@ -135,12 +136,15 @@ def check_batch(ctx, case):
             s['kwrev'] = t['kwrev']
         s['reraise_framework'] = False
     a, b = case['seeds']
+    # process configuration besides the hash seed: has the process imported the rest of the playback package
+    # (other cassettes, studio, file interception) or only what recording into a file cassette needs
+    ia, ib = case.get('imports', (False, False))
     work = tempfile.mkdtemp(prefix='verif-c06-')
     try:
-        r1 = child(a).call({'cmd': 'record', 'dir': work, 'prog': prog})
+        r1 = child(a, ia).call({'cmd': 'record', 'dir': work, 'prog': prog})
         if r1['outcome'] != 'ret' or not r1['rid']:
             raise Violation('recording the batch failed in the process with hash seed %s: %r' % (a, r1), 'record')
-        out = child(b).call({'cmd': 'replay', 'dir': work, 'rid': r1['rid'], 'prog': replayed})
+        out = child(b, ib).call({'cmd': 'replay', 'dir': work, 'rid': r1['rid'], 'prog': replayed})
         if out['bodies']:
             raise Violation('wrapped bodies ran during replay in the other process', 'body-ran-in-replay')
         for s in prog['steps']:
@@ -174,7 +178,7 @@ def check_batch(ctx, case):
             rev = PS.assign_sids(rev)
             if typed_equal:
                 # history independence needs interpreters without history: two fresh children
-                ca, cb = HS.Child(a), HS.Child(b)
+                ca, cb = HS.Child(a, ia), HS.Child(b, ib)
                 try:
                     rf = ca.call({'cmd': 'record', 'dir': work3, 'prog': fwd})
                     r2 = cb.call({'cmd': 'record', 'dir': work2, 'prog': rev})
@@ -183,7 +187,7 @@ def check_batch(ctx, case):
                     cb.close()
             else:
                 rf = r1
-                r2 = child(b).call({'cmd': 'record', 'dir': work2, 'prog': rev})
+                r2 = child(b, ib).call({'cmd': 'record', 'dir': work2, 'prog': rev})
         finally:
             shutil.rmtree(work2, ignore_errors=True)
             shutil.rmtree(work3, ignore_errors=True)
@@ -207,7 +211,8 @@ def check_batch(ctx, case):
         shutil.rmtree(work, ignore_errors=True)
     nt = a != b and any(nontrivial_tree(s['a']) or nontrivial_tree(s['b']) or
                         prog['ins'][s['i']].get('capture', 'all') not in ('all',) for s in prog['steps'])
-    ctx.case(case, nt, classes=('seeds:%s' % ('same' if a == b else 'different'), 'typed-equal:%d' % min(len(typed_equal), 3), 'batch:%d' % min(len(steps), 10)) +
+    ctx.case(case, nt, classes=('seeds:%s' % ('same' if a == b else 'different'),
+                                'imports:%s' % ('same' if ia == ib else 'different'), 'typed-equal:%d' % min(len(typed_equal), 3), 'batch:%d' % min(len(steps), 10)) +
              (('big-argument',) if any(x.get('big') for x in prog['steps']) else ()) +
              tuple(set('capture:' + prog['ins'][s['i']].get('capture', 'all') for s in prog['steps'])) +
              tuple(set('kind:' + prog['ins'][s['i']]['kind'] for s in prog['steps'])))
@@ -273,7 +278,8 @@ def batches(draw):
     prog = PS.assign_sids(dict(klass='instance', ins=ins, outs=[], steps=steps, ending='return', result=None,
                                extractor='none'))
     seeds = draw(st.tuples(st.sampled_from(HS.SEEDS), st.sampled_from(HS.SEEDS)))
-    return {'prog': prog, 'seeds': list(seeds), 'other': draw(st.sampled_from(['OTHER', 0, None, [1, 2]]))}
+    return {'prog': prog, 'seeds': list(seeds), 'other': draw(st.sampled_from(['OTHER', 0, None, [1, 2]])),
+            'imports': list(draw(st.sampled_from([(False, False), (False, True), (True, False), (True, True)])))}
 
 
 def known_witness(ctx):
